@@ -85,18 +85,12 @@ def handle (args : List String) : Option String :=
     | _, _ => some "err\terr\t-"
   | ["tv.sat", c, v] =>
     -- the check on the Go → Lean translator: Go's SatisfiedBy against the regenerated translation of
-    -- `versionDependency.satisfies` (impl) and against the hand-written model (spec); see Proofs/TransVersion.lean
+    -- `ParsedConstraint.SatisfiedBy` (which calls the translated `satisfies` / `CompareVersions` / `includesVersion`)
+    -- as impl and against the hand-written model as spec; see Proofs/TransVersion.lean
     let p := parseConstraint (unhexS c)
-    let tv := unhexS v
-    let run (sat : Dep → Apko.Version → Apko.Version → Bool) : String :=
-      match Impl.parseVersion tv with
-      | none => "verr"
-      | some x =>
-        if p.version.isEmpty then "true" else
-        match Impl.parseVersion p.version with
-        | none => "err"
-        | some pv => showOB (some (sat p.dep x pv))
-    some (run Generated.Trans.satisfies ++ "\t" ++ run Dep.satisfies ++ "\tunlisted")
+    match Impl.parseVersion (unhexS v) with
+    | none => some "verr\tverr\t-"
+    | some x => some (showOB (Generated.Trans.satisfiedBy p x) ++ "\t" ++ showOB (p.satisfiedBy Impl.parseVersion x) ++ "\tunlisted")
   | _ => none
 
 end Apko.Driver.Version
